@@ -1,5 +1,6 @@
 (* Deep embedding of a small Python subset: syntax + total big-step semantics. *)
 From Coq Require Import QArith Qminmax Lqa List String Bool ZArith.
+From Coq Require Qround.
 Import ListNotations.
 Open Scope string_scope.
 
@@ -35,6 +36,83 @@ Proof. constructor; reflexivity. Qed.
 Inductive binop := Add | Sub | Mul | Div.
 Inductive cmpop := Eq | NotEq | Lt | LtE | Gt | GtE.
 
+(* Built-in operations on values (the arguments are evaluated from left to right, like those of a call; the meaning
+   is [prim_apply], a closed function: nothing is left to an oracle).  Integers are the numbers whose reduced
+   fraction has denominator 1.  Only lists are measured / indexed / sliced: any other operand is the error value
+   "TypeError" (strings are not indexed in this embedding, as for [EIndex]).
+   New primitives can be added at the END of [prim] without touching the interpreter. *)
+Inductive prim :=
+| PLen        (* len(a) *)
+| PRange      (* range(n), where it is iterated (comprehension / generator): the list 0 .. n-1 *)
+| PIndex      (* a[i], i any expression: negative i counts from the end *)
+| PSliceTo    (* a[:n] *)
+| PMod        (* a % b on numbers: floor-mod, a - b * floor(a / b) (the sign of the divisor); b = 0 raises *)
+| PAbs        (* abs(a), a a number *)
+| PFloorDiv   (* a // b on numbers: the floor of the quotient (an integer); b == 0 is ZeroDivisionError *)
+| PJoin       (* 'sep'.join(l), l a list of strings *)
+| PReversed   (* reversed(l) where it is consumed at once (the argument of join): the reversed list *)
+| PRange2     (* range(a, b), wherever it is iterated: the list a .. b-1 *)
+| PEnumerate  (* enumerate(a), wherever it is iterated: the list of the pairs [i; a[i]] *)
+| PSum.       (* sum(a) of a list of numbers: 0 + a[0] + a[1] + ... from the left *)
+Definition as_int (q : Q) : option Z :=
+  let r := Qred q in match Qden r with xH => Some (Qnum r) | _ => None end.
+Definition vint (z : Z) : val := VNum (inject_Z z).
+Fixpoint zrange_from (start : Z) (n : nat) : list val :=
+  match n with Datatypes.O => [] | S n' => vint start :: zrange_from (start + 1) n' end.
+Fixpoint strs_of (l : list val) : option (list string) :=
+  match l with
+  | [] => Some []
+  | VStr s :: r => match strs_of r with Some ss => Some (s :: ss) | None => None end
+  | _ => None
+  end.
+Fixpoint enum_from (z : Z) (l : list val) : list val :=
+  match l with [] => [] | v :: r => VList [vint z; v] :: enum_from (z + 1) r end.
+Fixpoint sum_vals (acc : Q) (l : list val) : val :=
+  match l with
+  | [] => VNum acc
+  | VNum x :: r => sum_vals (acc + x)%Q r
+  | VErr m :: _ => VErr m
+  | _ :: _ => VErr "TypeError"
+  end.
+Definition prim_apply (p : prim) (args : list val) : val :=
+  match p, args with
+  | PAbs, [VNum q] => VNum (if Qle_bool 0 q then q else Qopp q)
+  | PFloorDiv, [VNum a; VNum b] =>
+      if Qeq_bool b 0 then VErr "ZeroDivisionError"
+      else let q := Qdiv a b in vint (Z.div (Qnum q) (Zpos (Qden q)))       (* floor of a / b *)
+  | PJoin, [VStr sep; VList l] =>
+      match strs_of l with Some ss => VStr (String.concat sep ss) | None => VErr "TypeError" end
+  | PReversed, [VList l] => VList (rev l)
+  | PLen, [VList l] => vint (Z.of_nat (List.length l))
+  | PRange, [VNum q] =>
+      match as_int q with Some n => VList (zrange_from 0 (Z.to_nat n)) | None => VErr "TypeError" end
+  | PIndex, [VList l; VNum q] =>
+      match as_int q with
+      | Some i => let n := Z.of_nat (List.length l) in
+                  if ((0 <=? i) && (i <? n))%Z then nth (Z.to_nat i) l (VErr "IndexError")
+                  else if ((- n <=? i) && (i <? 0))%Z then nth (Z.to_nat (n + i)) l (VErr "IndexError")
+                  else VErr "IndexError"
+      | None => VErr "TypeError"
+      end
+  | PSliceTo, [VList l; VNum q] =>
+      match as_int q with
+      | Some i => if (0 <=? i)%Z then VList (firstn (Z.to_nat i) l)
+                  else VList (firstn (Z.to_nat (Z.of_nat (List.length l) + i)) l)
+      | None => VErr "TypeError"
+      end
+  | PMod, [VNum x; VNum y] =>
+      if Qeq_bool y 0 then VErr "ZeroDivisionError"
+      else VNum (x - y * inject_Z (Coq.QArith.Qround.Qfloor (x / y)))%Q
+  | PRange2, [VNum a; VNum b] =>
+      match as_int a, as_int b with
+      | Some x, Some y => VList (zrange_from x (Z.to_nat (y - x)))
+      | _, _ => VErr "TypeError"
+      end
+  | PEnumerate, [VList l] => VList (enum_from 0 l)
+  | PSum, [VList l] => sum_vals 0 l
+  | _, _ => VErr "TypeError"
+  end.
+
 Inductive expr :=
 | EConst (v : val)
 | EVar (x : string)
@@ -52,7 +130,8 @@ Inductive expr :=
 | EIn (neg : bool) (e : expr) (c : expr)         (* e in c / e not in c *)
 | ECall (f : string) (args : list expr)
 | EXor (a b : expr)                              (* a ^ b on booleans *)
-| EListComp (elt : expr) (x : string) (it : expr) (cond : option expr).   (* [elt for x in it if cond] *)         (* f(a, b): another translated function (method: ".name", self first) *)
+| EListComp (elt : expr) (x : string) (it : expr) (cond : option expr)   (* [elt for x in it if cond] *)
+| EPrim (p : prim) (args : list expr).            (* len(a) / range(a) as an iterable / a[i] / a[:n] : see prim_apply *)         (* f(a, b): another translated function (method: ".name", self first) *)
 
 Inductive target := TVar (x : string) | TAttr (x : string) (a : string).
 
@@ -68,13 +147,35 @@ Inductive stmt :=
 | SWhile (c : expr) (body : list stmt)            (* while c: body  (at most wfuel iterations) *)
 | SBreak | SContinue                              (* only directly in a while body (through ifs) *)
 | SAppend (x : string) (e : expr)                 (* x.append(e) *)
-| SPass.
+| SPass
+| SSetItem (x : string) (i : expr) (e : expr).    (* x[i] = e  (x a variable holding a list / a dict) *)
 
 Definition env := list (string * val).
 Fixpoint lookup (k : string) (l : list (string * val)) : val :=
   match l with [] => VErr ("unbound:" ++ k) | (k', v) :: r => if String.eqb k k' then v else lookup k r end.
 Fixpoint update (k : string) (v : val) (l : list (string * val)) : list (string * val) :=
   match l with [] => [(k, v)] | (k', v') :: r => if String.eqb k k' then (k, v) :: r else (k', v') :: update k v r end.
+
+(* x[i] = v on values: Python's index normalisation (a negative index counts from the end) *)
+Definition norm_index (len : nat) (z : Z) : option nat :=
+  let z' := if Z.ltb z 0 then (z + Z.of_nat len)%Z else z in
+  if Z.ltb z' 0 then None else if Z.ltb z' (Z.of_nat len) then Some (Z.to_nat z') else None.
+Fixpoint list_set {T} (l : list T) (n : nat) (v : T) : list T :=
+  match l, n with
+  | [], _ => []
+  | _ :: r, Datatypes.O => v :: r
+  | x :: r, S n' => x :: list_set r n' v
+  end.
+Definition setitem (c i v : val) : val :=
+  match c, i with
+  | VList l, VNum q => match as_int q with
+                       | Some z => match norm_index (List.length l) z with
+                                   | Some n => VList (list_set l n v) | None => VErr "IndexError" end
+                       | None => VErr "TypeError" end
+  | VObj f, VStr k => VObj (update k v f)
+  | VErr m, _ => VErr m | _, VErr m => VErr m
+  | _, _ => VErr "TypeError"
+  end.
 
 Section Interp.
 Variable O : qops.
@@ -238,6 +339,12 @@ Fixpoint eval (rho : env) (e : expr) (k : val -> R) {struct e} : R :=
          | [] => match ocall O f (rev acc) with VErr m => err m | v => k v end
          | e1 :: es' => eval rho e1 (fun v => match v with VErr m => err m | _ => go es' (v :: acc) end)
          end) args []
+  | EPrim p args =>
+      (fix go (es : list expr) (acc : list val) : R :=
+         match es with
+         | [] => match prim_apply p (rev acc) with VErr m => err m | v => k v end
+         | e1 :: es' => eval rho e1 (fun v => match v with VErr m => err m | _ => go es' (v :: acc) end)
+         end) args []
   | EListComp elt x it cond =>
       eval rho it (fun vit =>
         match vit with
@@ -347,6 +454,14 @@ Fixpoint exec (s : stmt) (rho : env) (k : env -> A) {struct s} : A :=
                    end)
                else k rho))
          end) (wfuel O) rho
+  | SSetItem x i e =>       (* Python's order: the value, then the container, then the index *)
+      eval A kerr rho e (fun v => eval A kerr rho i (fun vi =>
+        match v with
+        | VErr m => kerr m
+        | _ => match setitem (lookup x rho) vi v with
+               | VErr m => kerr m
+               | c' => k (update x c' rho) end
+        end))
   end.
 Fixpoint exec_block (l : list stmt) (rho : env) (k : env -> A) : A :=
   match l with
